@@ -136,9 +136,7 @@ def analyse(prog, ctx_cfg) -> list:
             if partial:
                 out.append((f, st, ctext, kexpr, partial, partial))
                 continue
-            computed = any(isinstance(x, ast.Call) for x in ast.walk(vexpr)) or \
-                any(isinstance(x, ast.Subscript) and not isinstance(x.slice, ast.Constant) or isinstance(x, ast.IfExp)
-                    for x in ast.walk(vexpr))
+            computed = not isinstance(vexpr, (ast.Name, ast.Attribute, ast.Constant))
             if not computed:
                 continue            # an index (object stored under its own key), not a memo
             direct = _names(vexpr)
